@@ -947,11 +947,13 @@ func FromV3SchemaRef(schema *openapi3.SchemaRef, components *openapi3.Components
 		v2Schema.AllOf[i], _ = FromV3SchemaRef(v, components)
 	}
 	if schema.Value.PermitsNull() {
-		schema.Value.Nullable = false
-		if schema.Value.Extensions == nil {
-			v2Schema.Extensions = make(map[string]any)
+		// the v3 document is the caller's: neither its nullable flag nor its extension map is touched
+		extensions := make(map[string]any, len(schema.Value.Extensions)+1)
+		for k, v := range schema.Value.Extensions {
+			extensions[k] = v
 		}
-		v2Schema.Extensions["x-nullable"] = true
+		extensions["x-nullable"] = true
+		v2Schema.Extensions = extensions
 	}
 
 	return &openapi2.SchemaRef{
